@@ -104,6 +104,7 @@ def run(ctx):
 
     W.storage_independence(ctx, 'C03')
     from .genpipelines import check_generated_pipelines; check_generated_pipelines(ctx)   # pipelines regenerated from the source vs implementation
+    from .genpipelinesmore import check_generated_pipelines_more; check_generated_pipelines_more(ctx)   # Generated/PipelinesMore.lean (NumPy fraunhofer_inverse, rayleigh_sommerfeld, equal size adjust)
 
     # ---- propagator.__call__ (forward model object): default binary and non-binary apertures, first and repeated calls on one object
     import odak.learn.wave as LW
